@@ -948,6 +948,85 @@ theorem countLoop_replicate (st : Store) (prefs : List Bytes) :
   | nil => rfl
   | cons p r ih => simp [List.flatMap_cons] at ih ⊢; omega
 
+/-! ### Two versions that differ under every requested prefix -/
+
+/-- The maps the look-ups of one loop of `Storage.Hashes` go to when every look-up finds one of
+two versions installed: `A` where the flag is `true`, `B` where it is `false`. -/
+def pickMaps (A B : Store) (bs : List Bool) : List Store := bs.map (fun b => if b then A else B)
+
+theorem countLoop_cons (m : Store) (maps : List Store) (p : Bytes) (ps : List Bytes) :
+    countLoop (m :: maps) (p :: ps) = (m p).length + countLoop maps ps := by
+  simp [countLoop]
+
+theorem encodeLoop_length (maps : List Store) (prefs : List Bytes) :
+    (encodeLoop maps prefs).length = countLoop maps prefs := by
+  unfold encodeLoop countLoop
+  simp [List.length_flatMap]
+
+/-- With `B` narrower than `A` under every requested prefix the count of a loop that meets both
+lies between the two, and reaches either end only by meeting that version at every look-up. -/
+theorem countLoop_pick_bounds (A B : Store) (prefs : List Bytes)
+    (hlt : ∀ p ∈ prefs, (B p).length < (A p).length) :
+    ∀ bs : List Bool, bs.length = prefs.length →
+      countLoop (pickMaps A B bs) prefs ≤ countLoop (List.replicate prefs.length A) prefs ∧
+      countLoop (List.replicate prefs.length B) prefs ≤ countLoop (pickMaps A B bs) prefs ∧
+      (countLoop (pickMaps A B bs) prefs = countLoop (List.replicate prefs.length A) prefs →
+        ∀ b ∈ bs, b = true) ∧
+      (countLoop (pickMaps A B bs) prefs = countLoop (List.replicate prefs.length B) prefs →
+        ∀ b ∈ bs, b = false) := by
+  induction prefs with
+  | nil =>
+    intro bs hb
+    have : bs = [] := List.length_eq_zero_iff.mp hb
+    subst this
+    simp [pickMaps, countLoop]
+  | cons p ps ih =>
+    intro bs hb
+    cases bs with
+    | nil => simp at hb
+    | cons b bs' =>
+      have hb' : bs'.length = ps.length := by simpa using hb
+      have hp := hlt p (by simp)
+      have ih' := ih (fun q hq => hlt q (by simp [hq])) bs' hb'
+      obtain ⟨h1, h2, h3, h4⟩ := ih'
+      have e1 : pickMaps A B (b :: bs') = (if b then A else B) :: pickMaps A B bs' := by
+        simp [pickMaps]
+      rw [e1]
+      simp only [List.length_cons, List.replicate_succ, countLoop_cons]
+      cases b with
+      | true =>
+        simp only [if_true]
+        refine ⟨by omega, by omega, ?_, ?_⟩
+        · intro he x hx
+          rcases List.mem_cons.mp hx with hx | hx
+          · exact hx
+          · exact h3 (by omega) x hx
+        · intro he; omega
+      | false =>
+        simp only [Bool.false_eq_true, if_false]
+        refine ⟨by omega, by omega, ?_, ?_⟩
+        · intro he; omega
+        · intro he x hx
+          rcases List.mem_cons.mp hx with hx | hx
+          · exact hx
+          · exact h4 (by omega) x hx
+
+/-- The answer of `hashesLoads`, when there is one, has as many digests as the counting loop
+counted. -/
+theorem hashesLoads_length (cnt enc : List Store) (prefs : List Bytes) (ans : List Bytes)
+    (hne : prefs ≠ []) (h : hashesLoads cnt enc prefs = some ans) :
+    ans.length = countLoop cnt prefs ∧ countLoop cnt prefs ≤ countLoop enc prefs := by
+  unfold hashesLoads at h
+  rw [if_neg hne] at h
+  by_cases hl : (encodeLoop enc prefs).length < countLoop cnt prefs
+  · rw [if_pos hl] at h; cases h
+  · rw [if_neg hl] at h
+    injection h with h
+    subst h
+    rw [encodeLoop_length] at hl
+    rw [List.length_take, encodeLoop_length]
+    omega
+
 /-! ### Normalisation of the question name -/
 
 set_option maxRecDepth 100000 in
